@@ -103,6 +103,13 @@ def gen_scripts(tier, r):
         S.append(("top-error2", [f"new {MAXPRIME64} {MAXPRIME64}", "next 1", "next 1", "next 1"]))
         S.append(("top-bwd", [f"new {UMAX} {UMAX - 1000}", "prev 3", "next 3", "next 1"]))
         S.append(("top-fwd", [f"new {UMAX - 5000} {UMAX}", "next 200"]))
+    # --- corpus of past (seeded) failures, runs last because `ss` stays in effect: a refill of the 1024-prime buffer that
+    # ends exactly at the last non-empty 64-bit word of a NON-final 16 KiB segment whose remaining words hold no prime
+    # (prime gap >= 236 over the segment's tail): the next fillNextPrimes call must go on to the next segment instead of
+    # returning 0 primes, which its callers read as "generator exhausted" (portable fill path; DESIGN 18, seed c08c)
+    corpus = [(4010747047, 4012238560, 22300), (4028294617, 4029786130, 22300), (9292014307, 9293505820, 21500)]
+    for s0, h0, n in (corpus[:1] if q else corpus):
+        S.append(("corpus-refill-before-empty-segment-tail", ["ss 16", f"new {s0} {h0}", f"next {n}", "prev 3", "next 5"]))
     return S
 
 LINE = re.compile(r"^(.*?) => (.*)$")
